@@ -532,9 +532,38 @@ def sqd(a, b):
     return (a[0] - b[0]) ** 2 + (a[1] - b[1]) ** 2 + (a[2] - b[2]) ** 2
 
 
+# The fixed xterm 256-colour palette, independent of the implementation: what a
+# terminal shows for `38;5;n`.
+XTERM_LEVELS = (0, 95, 135, 175, 215, 255)
+XTERM = ([(0, 0, 0), (205, 0, 0), (0, 205, 0), (205, 205, 0), (0, 0, 238), (205, 0, 205), (0, 205, 205), (229, 229, 229),
+          (127, 127, 127), (255, 0, 0), (0, 255, 0), (255, 255, 0), (92, 92, 255), (255, 0, 255), (0, 255, 255), (255, 255, 255)]
+         + [(r, g, b) for r in XTERM_LEVELS for g in XTERM_LEVELS for b in XTERM_LEVELS]
+         + [(8 + 10 * i,) * 3 for i in range(24)])
+assert len(XTERM) == 256
+
+
 def spec_256(rgb):
-    tab = pt()["vt100"]._256_colors.colors
-    return min(range(16, len(tab)), key=lambda i: (sqd(rgb, tab[i]), i))
+    """index of the nearest xterm colour (>= 16: the first 16 depend on the terminal's theme), lowest index on ties"""
+    return min(range(16, 256), key=lambda i: (sqd(rgb, XTERM[i]), i))
+
+
+def check_tables(chk):
+    """the implementation's encoder and decoder tables against the fixed xterm palette"""
+    P = pt()
+    tab = list(P["vt100"]._256ColorCache().colors)
+    from prompt_toolkit.formatted_text import ansi
+    diff = [i for i in range(max(len(tab), 256)) if (tab[i] if i < len(tab) else None) != (XTERM[i] if i < 256 else None)]
+    if diff:
+        i = diff[0]
+        chk.violation("oracle", "_256ColorCache().colors differs from the xterm 256-colour palette at indices %r (%d entries): entry %d is %r, xterm colour %d is %r" % (
+            diff[:8], len(tab), i, tab[i] if i < len(tab) else None, i, XTERM[i] if i < 256 else None),
+            {"op": "map256", "family": "xterm-table"}, {"case": [5, 238, 238, 238], "differing_indices": diff[:16], "table_length": len(tab)})
+    dec = {i: ansi._256_colors.get(i) for i in range(256)}
+    bad = [i for i in range(256) if dec[i] != "#%02x%02x%02x" % XTERM[i]]
+    if bad:
+        chk.violation("oracle", "ANSI() decodes 38;5;%d to %r, xterm colour %d is %r (indices %r)" % (
+            bad[0], dec[bad[0]], bad[0], "#%02x%02x%02x" % XTERM[bad[0]], bad[:8]),
+            {"op": "sgr-decode", "family": "xterm-table"}, {"case": [3, [38, 5, bad[0]]], "differing_indices": bad[:16]})
 
 
 def cands_16(rgb, excluded):
@@ -647,7 +676,7 @@ def oracle(case, res):
             if (back.color, back.bgcolor) != ("", ""):
                 return ("1-bit depth emitted a colour: %r" % seq, {"op": "escape-code", "family": "depth1"})
         elif depth == 8:
-            tab = P["vt100"]._256_colors.colors
+            tab = XTERM
             for want, gotc, what in ((fg, back.color, "fg"), (bg, back.bgcolor, "bg")):
                 if want == "" or want in names:
                     if gotc != want:
@@ -678,6 +707,13 @@ def oracle(case, res):
                 if msg:
                     return ("4-bit bg %s (fg %s): %s" % (bg, fg, msg), {"op": "escape-code", "family": "nearest16"})
         return None
+    if op == 3 and len(case[1]) == 3 and case[1][0] in (38, 48) and case[1][1] == 5 and 0 <= case[1][2] <= 255 and isinstance(res[0], list):
+        n = case[1][2]
+        got = res[0][0 if case[1][0] == 38 else 1]
+        exp = [S("#%02x%02x%02x" % XTERM[n])]
+        if got != exp:
+            return ("%d;5;%d decodes to %r, xterm colour %d is %r" % (case[1][0], n, unS(got[0]) if got else None, n, unS(exp[0])),
+                    {"op": "sgr-decode", "family": "xterm-table"})
     if op in (3, 4):
         if isinstance(res, list) and res and res[0] in (98, 99, 1, 2) and not (op == 3 and isinstance(res[0], list)):
             if op == 4 and res == [1]:
@@ -692,9 +728,9 @@ def oracle(case, res):
             return ("256 map raised %r" % (res,), {"op": "map256", "family": "raise"})
         exp = spec_256(rgb)
         if res != exp:
-            tab = P["vt100"]._256_colors.colors
-            return ("256 map %r -> %d (distance %d); nearest entry with index >= 16, lowest index, is %d (distance %d)" % (
-                rgb, res, sqd(rgb, tab[res]) if 0 <= res < len(tab) else -1, exp, sqd(rgb, tab[exp])),
+            tab = XTERM
+            return ("256 map %r -> %d (xterm colour %r, distance %d); the nearest xterm colour with index >= 16, lowest index, is %d (%r, distance %d)" % (
+                rgb, res, tab[res] if 0 <= res < 256 else None, sqd(rgb, tab[res]) if 0 <= res < 256 else -1, exp, tab[exp], sqd(rgb, tab[exp])),
                 {"op": "map256", "family": "nearest256"})
         return None
     if op == 6:
@@ -753,7 +789,7 @@ def oracle(case, res):
                 return None
             adj_active = any(n[0] == 3 and act and not n[2] for n, act in nodes)
             has_default = a0.color == "default" or any(n[0] == 2 and unS(n[1]) == "default" for n, _ in nodes)
-            fam = "adjust-default" if (res[0] == 1 and adj_active and has_default) else "raise"
+            fam = "raise-adjust-default" if (res[0] == 1 and adj_active and has_default) else "raise"
             return ("transformation raised %r on in-domain attributes %r" % (res, tuple(a0)), {"op": "transform", "family": fam})
         a1 = dec_attrs(res[1])
         if canon_color(a0.color) is None or canon_color(a0.bgcolor) is None:
@@ -1000,6 +1036,9 @@ def gen_decode(chk, dist):
     codes = [0, 1, 2, 3, 4, 5, 6, 7, 8, 9, 21, 22, 23, 24, 25, 26, 27, 28, 29, 30, 37, 38, 39, 40, 47, 48, 49, 50,
              90, 97, 98, 100, 107, 108, 15, 16, 232, 253, 254, 255, 256, 9999]
     cases.append([3, []])
+    for n in range(256):
+        cases.append([3, [38, 5, n]])
+        cases.append([3, [48, 5, n]])
     for a in codes:
         cases.append([3, [a]])
         for b in codes:
@@ -1041,7 +1080,7 @@ def gen_rgb(chk, dist):
     rng = chk.rng
     thorough = chk.tier == "thorough"
     P = pt()
-    tab256 = P["vt100"]._256_colors.colors
+    tab256 = list(P["vt100"]._256_colors.colors) + XTERM[232:]
     tab16 = P["vt100"].ANSI_COLORS_TO_RGB
     names = P["NAMES"]
     trip = set()
@@ -1343,25 +1382,6 @@ def gen_merged_dynamic(chk, dist):
 # thorough tier: the whole 2^24 cube of the 256-colour map, real cache against
 # an independent oracle (per-channel nearest cube level + best gray), sharded
 
-def _cube_structure(tab):
-    """(levels, grays) if tab[16:] is the 6x6x6 product followed by grays (+ duplicates), else None"""
-    n = len(tab)
-    levels = sorted(set(c[0] for c in tab[16:232]))
-    if len(levels) != 6 or n < 232:
-        return None
-    k = 16
-    for r in levels:
-        for g in levels:
-            for b in levels:
-                if tab[k] != (r, g, b):
-                    return None
-                k += 1
-    rest = [(i, tab[i]) for i in range(232, n)]
-    if any(c[0] != c[1] or c[1] != c[2] for _, c in rest):
-        return None
-    return levels, rest
-
-
 LOWHEX = frozenset("0123456789abcdef")
 
 
@@ -1417,11 +1437,11 @@ def sweep_kernels(chk, workers=8):
 def _sweep_worker(args):
     r_lo, r_hi = args
     vt = pt()["vt100"]
-    tab = vt._256ColorCache().colors
-    st = _cube_structure(tab)
+    tab = XTERM
+    levels, rest = XTERM_LEVELS, [(i, XTERM[i]) for i in range(232, 256)]
+    st = True
     bad = []
     if st is not None:
-        levels, rest = st
         near = []
         for v in range(256):
             best = min(range(6), key=lambda i: ((v - levels[i]) ** 2, i))
@@ -1554,6 +1574,7 @@ def main(tier):
         chk.violation("tie", "model does not build: " + logm[-400:], {"kind": "model-build"}, {"log": logm[-3000:]}, no_input=True)
         return chk.finish()
     pt()
+    check_tables(chk)
     dist = {k: 0 for k in ("cascade_exhaustive_small", "cascade_three_rules", "merge_splits", "cascade_random",
                            "escape_all_flags", "escape_random", "sgr_random", "ansi_text", "merge_repeated_rule")}
     cases = load_corpus(PROP)
@@ -1654,7 +1675,10 @@ def main(tier):
         "str.lower() is modelled for ASCII only; class names and colour words in the cases are ASCII (whitespace is the full str.isspace table)",
         "int(s, 16) is modelled for ASCII text (sign, 0x prefix, underscores as in CPython); non-ASCII digits/spaces are outside the model",
         "ANSI parser: texts without \\x01 (ZeroWidthEscape brackets are C18's subject); isdigit() is ASCII in the model",
-        "the caches (_EscapeCodeCache, _16ColorCache, _256ColorCache dicts; SimpleCache keyed on id() in _MergedStyle) are pure memoisation and not modelled",
+        "the caches are modelled (C19_caches_transparent, C19_merged_cache_transparent, C19_memoized_swap_transparent); Style identities (id()) are distinct pool ids: reuse of an id after garbage collection is outside the model",
+        "a DynamicStyle slot returns a plain Style object or None (not another merged/dynamic style)",
+        "the colorsys float kernels of the transformations are parameters of the model; their range (six hex digits) is checked on the real code (thorough: all 2^24 colours for get_opposite_color)",
+        "the 256-colour palette the oracle uses is the fixed xterm palette (16 system colours, 6x6x6 cube, 24 grays), not the implementation's table",
         "colour depth is one of 1, 4, 8, 24 bit",
     ]
     return chk.finish()
